@@ -669,24 +669,25 @@ static size_t soxr_output_1ch(soxr_t p, unsigned i, soxr_buf_t dest, size_t len,
 
 
 
-static size_t soxr_output_no_callback(soxr_t p, soxr_buf_t out, size_t len)
+static size_t soxr_output_no_callback(soxr_t p, soxr_buf_t out, size_t len, size_t offset)
 {
   unsigned u;
   size_t done = 0;
   bool separated = !!(p->io_spec.otype & SOXR_SPLIT);
+  size_t const skip = offset * soxr_datatype_size(p->io_spec.otype);
 #if defined _OPENMP
   int i;
   if (!p->runtime_spec.num_threads && p->num_channels > 1)
 #pragma omp parallel for
   for (i = 0; i < (int)p->num_channels; ++i) {
     size_t done1;
-    done1 = soxr_output_1ch(p, (unsigned)i, separated? ((soxr_bufs_t)out)[i] : 0, len, separated);
+    done1 = soxr_output_1ch(p, (unsigned)i, separated? (char *)((soxr_bufs_t)out)[i] + skip : 0, len, separated);
     if (!i)
       done = done1;
   } else
 #endif
   for (u = 0; u < p->num_channels; ++u)
-    done = soxr_output_1ch(p, u, separated? ((soxr_bufs_t)out)[u] : 0, len, separated);
+    done = soxr_output_1ch(p, u, separated? (char *)((soxr_bufs_t)out)[u] + skip : 0, len, separated);
 
   if (!separated)
     p->clips += (p->interleave)(p->io_spec.otype, &out, (sample_t const * const *)p->channel_ptrs,
@@ -707,13 +708,14 @@ size_t soxr_output(soxr_t p, void * out, size_t len0)
   if (!out && len0) {p->error = "null output buffer pointer"; return 0;}
 
   do {
-    odone = soxr_output_no_callback(p, out, olen);
+    odone = soxr_output_no_callback(p, out, olen, odone0);
     odone0 += odone;
     if (odone0 == len0 || !p->input_fn || p->flushing)
       break;
 
     osize = soxr_datatype_size(p->io_spec.otype) * p->num_channels;
-    out = (char *)out + osize * odone;
+    if (!(p->io_spec.otype & SOXR_SPLIT)) /* Split: see offset, above. */
+      out = (char *)out + osize * odone;
     olen -= odone;
     idone = p->input_fn(p->input_fn_state, &in, ilen);
     was_flushing = p->flushing;
